@@ -91,9 +91,7 @@ func checkRefSelf(rc RefCase, ctx *vcommon.Ctx) *vcommon.Failure {
 		return nil
 	}
 	c.Class("valid")
-	if info.numbers > 0 && info.strings > 0 {
-		c.NonTrivial(string(rc.Doc))
-	}
+	_ = info // self-check cases are never counted as non-trivial coverage of C13
 	dec := json.NewDecoder(bytes.NewReader(rc.Doc))
 	dec.UseNumber()
 	var x any
@@ -291,7 +289,7 @@ func checkRefPy(pc PyCase, ctx *vcommon.Ctx) *vcommon.Failure {
 		}
 	}
 	if nontrivial > 0 {
-		c.NonTrivial(string(in))
+		c.Class("batch-with-number-and-string")
 	}
 	return nil
 }
